@@ -176,6 +176,74 @@ def log_partial_ops(fi):
     return out
 
 
+def _positive(e, fi, _d=0):
+    """e is certainly > 0 (a positive literal, max(positive, …), a local whose every binding is)"""
+    if isinstance(e, ast.Constant):
+        return isinstance(e.value, (int, float)) and not isinstance(e.value, bool) and e.value > 0
+    if isinstance(e, ast.Call) and norm(e.func) == "max" and any(_positive(a, fi, _d) for a in e.args):
+        return True
+    if isinstance(e, ast.BinOp) and isinstance(e.op, ast.Mult):
+        return _positive(e.left, fi, _d) and _positive(e.right, fi, _d)
+    if isinstance(e, ast.Name) and _d < 3:
+        binds = [st for st in ast.walk(fi.node) if isinstance(st, ast.Assign) and any(isinstance(t, ast.Name) and t.id == e.id for t in st.targets)]
+        others = [n for n in ast.walk(fi.node) if isinstance(n, ast.Name) and n.id == e.id and isinstance(n.ctx, ast.Store)]
+        if binds and len(others) == len(binds):
+            return all(_positive(b.value, fi, _d + 1) for b in binds)
+        if not others:
+            # a module constant
+            v = fi.mod.constants.get(e.id) if hasattr(fi.mod, "constants") else None
+            if v is not None:
+                return _positive(v, fi, _d + 1)
+    return False
+
+
+def negative_slices(prog, rep, files, rule="NEG-SLICE"):
+    """`xs[-n:]` is the last n elements only for n > 0: at n == 0 it is the whole sequence (and `xs[:-n]` is empty)"""
+    rep.rule(rule, "a slice counted from the end (`xs[-n:]`, `xs[:-n]`) has a bound that cannot be zero where it is evaluated: -0 is 0, so at n == 0 `xs[-n:]` is the whole sequence and `xs[:-n]` is empty — the opposite of 'the last / all but the last n'. The bound is a positive constant, or the slice is under a test that mentions it")
+    n = 0
+    for fi in prog.funcs.values():
+        if fi.mod.relpath not in files:
+            continue
+        for sub in walk_own(fi.node):
+            if not (isinstance(sub, ast.Subscript) and isinstance(sub.slice, ast.Slice)):
+                continue
+            for which, b in (("lower", sub.slice.lower), ("upper", sub.slice.upper)):
+                if not (isinstance(b, ast.UnaryOp) and isinstance(b.op, ast.USub)) or isinstance(b.operand, ast.Constant):
+                    continue
+                n += 1
+                e = b.operand
+                names = {norm(x) for x in ast.walk(e) if isinstance(x, (ast.Name, ast.Attribute, ast.Call))}
+                if _positive(e, fi) or (names & _guard_names(sub, fi.node)):
+                    rep.ok(rule, fi.short, norm(sub)[:50], "bound positive or tested", fi.loc(sub))
+                    continue
+                what = "the whole sequence" if which == "lower" else "empty"
+                rep.violation(rule, fi.short, norm(sub)[:50], f"`{norm(sub)}`: when `{norm(e)}` is 0 the slice is {what}, not {'the last' if which == 'lower' else 'all but the last'} 0 elements; nothing on the way to it tests `{norm(e)}`", fi.loc(sub))
+    rep.ok(rule, "anchor files", "slices counted from the end", f"{n} found in {sorted(files)}", None)
+
+
+def optional_attrs(prog, rep, files, rule="OPT-ATTR"):
+    """`f.__doc__` is None for a function without a docstring (and for every function under -OO): using it as a string
+    without a test raises AttributeError / TypeError — inside an error handler that replaces the error being reported"""
+    rep.rule(rule, "an attribute the language defines as `str or None` (`__doc__`) is not used as a string (method call, subscript, concatenation, iteration) unless a test of it is on the way (`if f.__doc__`, `f.__doc__ or ''`): a function without a docstring — some registered built-ins have none, and `python -OO` strips all — turns the line into AttributeError / TypeError")
+    from .model import parent
+
+    n = 0
+    for fi in prog.funcs.values():
+        if fi.mod.relpath not in files:
+            continue
+        for a in walk_own(fi.node):
+            if not (isinstance(a, ast.Attribute) and a.attr == "__doc__" and isinstance(a.ctx, ast.Load)):
+                continue
+            n += 1
+            p = parent(a)
+            used = (isinstance(p, ast.Attribute) and p.value is a) or (isinstance(p, ast.Subscript) and p.value is a) or (isinstance(p, ast.BinOp) and isinstance(p.op, (ast.Add, ast.Mod))) or (isinstance(p, ast.Call) and p.func is not a and norm(p.func) in ("len", "textwrap.dedent", "inspect.cleandoc")) or isinstance(p, (ast.For, ast.comprehension))
+            if not used:
+                continue
+            guarded = any("__doc__" in g for g in _guard_names(a, fi.node))
+            rep.check(guarded, rule, fi.short, norm(p)[:50], "tested before use", f"`{norm(p)[:60]}` uses `{norm(a)}` as a string, but it is None for a function without a docstring (and always under `python -OO`): the line raises {'AttributeError' if isinstance(p, ast.Attribute) else 'TypeError'} there, in place of whatever the function was about to report", fi.loc(a))
+    rep.ok(rule, "anchor files", "__doc__ uses", f"{n} found in {sorted(files)}", None)
+
+
 def log_total(prog, rep, files, rule="LOG-TOTAL"):
     """files: repo-relative paths (the property's anchor files)"""
     rep.rule(rule, "what a logging statement evaluates is defined for every input: no first / last element of a possibly empty sequence, no division by a possibly zero count, no %-formatting of interpolated text or of a None id, no numeric format code on a timedelta / datetime. The arguments of a logging call are evaluated whatever the log level: such a line turns an input the function handled (an empty list, a single event, an unsaved event) into an exception")
@@ -268,6 +336,8 @@ def free_state(prog, rep, files, rule="FREE-STATE"):
                         base = b.id
             elif isinstance(node, ast.Expr) and isinstance(node.value, ast.Call) and isinstance(node.value.func, ast.Attribute) and node.value.func.attr in MUTATORS and isinstance(node.value.func.value, ast.Name):
                 base = node.value.func.value.id
+            elif isinstance(node, ast.Call) and isinstance(node.func, ast.Attribute) and node.func.attr == "setdefault" and isinstance(node.func.value, ast.Name):
+                base = node.func.value.id  # d.setdefault(k, v) writes wherever it stands (as the value of an assignment, too)
             elif isinstance(node, ast.Delete):
                 for t in node.targets:
                     if isinstance(t, ast.Subscript) and isinstance(t.value, ast.Name):
@@ -287,7 +357,7 @@ def free_state(prog, rep, files, rule="FREE-STATE"):
                 if q in known:
                     continue
                 v = fi.mod.consts[base]
-                if isinstance(v, (ast.Dict, ast.List, ast.Set)) or (isinstance(v, ast.Call) and norm(v.func) in ("dict", "list", "set", "defaultdict", "collections.defaultdict", "OrderedDict", "collections.OrderedDict", "deque", "collections.deque", "WeakValueDictionary", "weakref.WeakValueDictionary")):
+                if isinstance(v, (ast.Dict, ast.List, ast.Set)) or (isinstance(v, ast.Call) and norm(v.func) in ("dict", "list", "set", "defaultdict", "collections.defaultdict", "OrderedDict", "collections.OrderedDict", "deque", "collections.deque", "WeakValueDictionary", "weakref.WeakValueDictionary", "WeakKeyDictionary", "weakref.WeakKeyDictionary", "WeakSet", "weakref.WeakSet", "Counter", "collections.Counter", "ChainMap", "collections.ChainMap")):
                     where = f"the module-level container `{base}`"
             if where is None:
                 continue
